@@ -73,6 +73,11 @@ pub trait PropCheck: Sync {
     fn max_shrink_evals(&self) -> u64 {
         600
     }
+    /// a shard stops generating once it has recorded a violation (checks whose failures are expensive to observe —
+    /// a hang costs its whole CPU budget, three times — would otherwise spend hours on a tree that hangs often)
+    fn stop_shard_after_violation(&self) -> bool {
+        false
+    }
     fn case_json(&self, case: &Self::Case) -> Value;
     fn case_from_json(&self, v: &Value) -> Result<Self::Case, String>;
     /// does a saved case (the `case` object of a replay / regress file) belong to this check? (properties with several
@@ -313,6 +318,10 @@ pub fn run_generated<C: PropCheck>(check: &C, cfg: &RunCfg, cases: u64, batch: u
                         }
                     }
                     if !rep.errors.is_empty() {
+                        break;
+                    }
+                    if check.stop_shard_after_violation() && !rep.violations.is_empty() {
+                        *rep.labels.entry("shard-stopped-after-violation".into()).or_default() += 1;
                         break;
                     }
                 }
